@@ -129,7 +129,7 @@ Proof.
   rewrite (vfs_nil w Hp0) in Hfull, Hfresh.
   set (fs0 := c_fs (w_ctx w)) in *. set (f0 := w_file w) in *.
   fold base in Hbase. fold lo in Hbase, Hn.
-  assert (Hlo : lo <= f0) by lia.
+  assert (Hlo : lo <= f0) by (clear - Hn Hn1; lia).
   assert (Efiles : w_files w = nfiles lo f0).
   { rewrite (HN wr_ok_iota w Hok). fold lo. unfold nfiles. f_equal.
     rewrite lenN_length in Hn. lia. }
@@ -174,17 +174,18 @@ Proof.
   (* no roll-over: one file *)
   assert (Ehi : hi = f0) by (unfold f1 in *; lia).
   set (n := N.to_nat (hi - lo')).
-  assert (Ecur : lo' + N.of_nat n = hi) by (unfold n; lia).
+  assert (Ecur : lo' + N.of_nat n = hi) by (unfold n; clear - Hlohi; lia).
   assert (Hlistx : list_wal_numbers img = iota lo' (S n)) by exact Hlist.
   assert (Hfilesx : forall f, In f (iota lo' (S n)) ->
             exists b, fs_get img (filename f) = Some (FFile b) /\ lenN b <= FB /\
                       (f <> lo' + N.of_nat n -> lenN b = FB)).
   { intros f Hf. apply iota_In in Hf. destruct (Hlens f ltac:(lia)) as (b & Hb & Hlb').
     exists b. split; [exact Hb|]. rewrite Ecur.
-    destruct (N.eqb_spec f hi) as [->|Hne]; destruct short; cbn [andb] in Hlb'; split; lia. }
+    destruct (N.eqb_spec f hi) as [->|Hne]; destruct short; cbn [andb] in Hlb'; split;
+      (clear - Hlb' Hne || clear - Hlb'); lia. }
   assert (Eext : fs_ext P img lo' n = zext P img hi).
   { unfold fs_ext. rewrite Ecur. reflexivity. }
-  assert (Hbase'' : base <= lo') by lia.
+  assert (Hbase'' : base <= lo') by (clear - Hbase; lia).
   assert (HwfX : Forall wf_entry X).
   { pose proof (step_log_wf P st o (proj1 HL) (op_wf_strict_wf _ _ Hop)) as Hlw.
     unfold X. apply Forall_map. exact Hlw. }
@@ -199,23 +200,25 @@ Proof.
   (* the cursor lies in file f0; the whole call fits before the last block *)
   assert (Ec0f : c0 = (f0 - base) * FB + w_off w).
   { rewrite Ec0. unfold wpos.
-    replace (lenN (w_files w) - 1) with (f0 - lo) by lia.
-    replace (f0 - base) with ((lo - base) + (f0 - lo)) by lia. lia. }
+    replace (lenN (w_files w) - 1) with (f0 - lo) by (clear - Hn; lia).
+    replace (f0 - base) with ((lo - base) + (f0 - lo)) by (clear - Hbase Hlo; lia). clear - Hlo. lia. }
   pose proof (call_trace_pos _ _ _ _ _ _ _ Hct Hoff) as Hctp.
   assert (Hfit : c0 + lenN NEW + B <= (hi + 1 - base) * FB).
   { assert (E1 : c0 + lenN NEW = (f0 - base) * FB + w_off w').
-    { unfold f1 in *. rewrite Hroll in Hctp. fold w in Hctp. fold f0 in Hctp. lia. }
-    rewrite Ehi. replace (f0 + 1 - base) with ((f0 - base) + 1) by lia. lia. }
+    { unfold f1 in *. rewrite Hroll in Hctp. fold w in Hctp. fold f0 in Hctp. clear - Hctp Ec0f. lia. }
+    rewrite Ehi. replace (f0 + 1 - base) with ((f0 - base) + 1) by (clear - Hbase Hlo; lia).
+    clear - E1 Hblkend. lia. }
   set (S_all := T ++ zerosN (c0 - lenN T) ++ takeN j NEW ++ zerosN z) in *.
   assert (HlenS : lenN S_all = (hi - base + 1) * FB).
   { unfold S_all. rewrite !lenN_app, !lenN_zerosN, lenN_takeN.
-    replace (hi - base + 1) with (hi + 1 - base) by lia. lia. }
+    replace (hi - base + 1) with (hi + 1 - base) by (clear - Hbase'' Hlohi; lia).
+    clear - Hc1c Hj Hlen Ec0. lia. }
   assert (HokS : stream_ok P S_all).
   { exists ((hi - base + 1) * NB P). rewrite HlenS. unfold FILE_BYTES. lia. }
   rewrite ENEW in Hj.
   destruct (crash_stream_pre P HBS_lo HBS_hi Hcrc Hnc T c0 (ser (gh_ALL G)) (ser X) j z S_all
               (H3 encs_of_rel (ser (gh_ALL G)) 0) Hc1c Hc2c Hj ltac:(unfold S_all; rewrite ENEW; reflexivity)
-              HokS ltac:(rewrite <- ENEW, HlenS; replace (hi - base + 1) with (hi + 1 - base) by lia; exact Hfit))
+              HokS ltac:(rewrite <- ENEW, HlenS; replace (hi - base + 1) with (hi + 1 - base) by (clear - Hbase'' Hlohi; lia); exact Hfit))
     as (xs_d & xs_r & PRE & adm & cmax & rm & zz & Hxs & Hpc & HSp & Hroom & Hcm & Hrm7 & Hadmc &
         HTP & Hc0P & _ & HoldP & HPT' & Hfullj).
   destruct (map_app_inv entry_ser X _ _ Hxs) as (Xd & Xr & HX & HXd & HXr).
@@ -234,14 +237,16 @@ Proof.
   { apply (pre_reads_of_cont P HBS_lo HBS_hi Hcrc). exact Hpc'. }
   (* geometry *)
   assert (Hb'c0 : (lo' - base) * FB <= c0).
-  { rewrite Ec0f. assert ((lo' - base) * FB <= (f0 - base) * FB) by (apply N.mul_le_mono_r; lia). lia. }
+  { rewrite Ec0f. assert ((lo' - base) * FB <= (f0 - base) * FB) by (apply N.mul_le_mono_r; clear - Hlohi Ehi; lia).
+    clear - H. lia. }
   assert (Hadm_all : forall mm, adm (mm * NB P)).
   { intros mm. apply Hadmc. rewrite HlenS.
     replace (mm * NB P * B) with (mm * FB) by (unfold FILE_BYTES; lia).
     destruct (N.le_gt_cases mm (f0 - base)) as [Hle|Hgt].
-    - left. rewrite Ec0f. assert (mm * FB <= (f0 - base) * FB) by (apply N.mul_le_mono_r; lia). lia.
-    - right. rewrite Ehi. assert ((f0 - base + 1) * FB <= mm * FB) by (apply N.mul_le_mono_r; lia). lia. }
-  assert (Hhi' : (hi - base) * FB <= ffp (lenN PRE)) by (rewrite Ehi, Ec0f in *; lia).
+    - left. rewrite Ec0f. assert (mm * FB <= (f0 - base) * FB) by (apply N.mul_le_mono_r; exact Hle). clear - H. lia.
+    - right. rewrite Ehi. assert ((f0 - base + 1) * FB <= mm * FB) by (apply N.mul_le_mono_r; clear - Hgt; lia).
+      clear - H. lia. }
+  assert (Hhi' : (hi - base) * FB <= ffp (lenN PRE)) by (rewrite Ehi; clear - Hc0P Ec0f; lia).
   assert (HwfO : Forall wf_entry OLD).
   { unfold OLD. apply Forall_app. split; [exact HWf|].
     rewrite HX in HwfX. apply Forall_app in HwfX. apply HwfX. }
@@ -255,7 +260,7 @@ Proof.
   assert (Htop' : forall x, lo' + N.of_nat n < x -> x <= U64_MAX -> fs_get img (filename x) = None)
     by (rewrite Ecur; exact Htop).
   assert (Hhi'' : (lo' + N.of_nat n - base) * FB <= ffp (lenN PRE)) by (rewrite Ecur; exact Hhi').
-  assert (Hbffp : (lo' - base) * FB <= ffp (lenN PRE)) by lia.
+  assert (Hbffp : (lo' - base) * FB <= ffp (lenN PRE)) by (clear - Hb'c0 Hc0P; lia).
   assert (Hadmk : adm ((lo' - base) * NB P)) by apply Hadm_all.
   assert (EcurT' : cursor_after 0 (ser (gh_ALL G ++ X)) = lenN (encs_of 0 (ser (gh_ALL G ++ X)))).
   { apply (HN cursor_after_0). }
@@ -288,7 +293,7 @@ Proof.
         - exact (pinv_E_positions w G HP).
         - pose proof (starts_ge_ffp P HBS_lo HBS_hi Hcrc (ser Xd) (lenN (encs_of 0 (ser (gh_ALL G))))) as Hs.
           eapply Forall_impl; [|exact Hs]. cbn beta. intros s Hs'. rewrite <- ET in Hs'.
-          rewrite <- Elo'. lia. }
+          rewrite <- Elo'. clear - Hs' Hc2c Ec0 Elo'. lia. }
       destruct Xd as [|x Xd''].
       + left. split; [reflexivity|]. now apply Hnil.
       + right. split; [discriminate|]. apply Hcons. discriminate.
@@ -297,7 +302,7 @@ Proof.
       assert (HXr0 : Xr = []).
       { destruct Xr as [|xr Xr']; [reflexivity|exfalso].
         assert (Hne : xs_r <> []) by (rewrite <- HXr; discriminate).
-        specialize (Hfullj Hne). rewrite <- ENEW in Hfullj. lia. }
+        specialize (Hfullj Hne). rewrite <- ENEW in Hfullj. clear - Hfullj Hjfull. lia. }
       assert (EXd : Xd = X) by (rewrite HX, HXr0; now rewrite app_nil_r).
       exists (s_qs st'), (wlo w'), G'.
       split; [exact HL'|]. split; [unfold OLD; rewrite EXd; exact EALL'|]. split; [exact Eb|].
@@ -305,7 +310,8 @@ Proof.
       { pose proof (pinv_E_positions w' G' HP') as Hpos'. rewrite Eb in Hpos'.
         unfold opos, OLD. rewrite EXd, <- EALL'. fold (gh_ser G').
         eapply Forall_impl; [|exact Hpos']. cbn beta. intros s Hs'.
-        assert ((lo' - base) * FB <= (wlo w' - base) * FB) by (apply N.mul_le_mono_r; lia). lia. }
+        assert ((lo' - base) * FB <= (wlo w' - base) * FB) by (apply N.mul_le_mono_r; clear - Hlo'x; lia).
+        clear - H Hs'. lia. }
       destruct (nil_dec X) as [E0|Hne].
       + left. split; [congruence|]. intros q.
         (* nothing logged: the abstract state is unchanged *)
@@ -333,8 +339,8 @@ Proof.
   split.
   { rewrite Ebr, Eblog. rewrite Ecur in Hfr.
     assert ((hi - base + 1) * FB <= (w_file (s_wr st_r) + 1 - base) * FB)
-      by (apply N.mul_le_mono_r; lia).
-    pose proof Hroom as Hroom2. rewrite HlenS in Hroom2. lia. }
+      by (apply N.mul_le_mono_r; clear - Hfr Hbase'' Hlohi; lia).
+    pose proof Hroom as Hroom2. rewrite HlenS in Hroom2. clear - H Hroom2. lia. }
   split; [exact Hpolr|]. split; [exact Hpendr|].
   destruct Habs as [[_ Ha]|[_ Ha]]; [left|right]; intros q; now rewrite Habsr, Ha.
 Qed.
